@@ -604,7 +604,7 @@ int parse_instruction_pic18(AsmContext *asm_context, char *instr)
             return -1;
           }
 
-          if (operands[0].value < 0 || operands[0].value > 4095)
+          if (operands[1].value < 0 || operands[1].value > 4095)
           {
             print_error_range(asm_context, "Literal", 0, 4095);
             return -1;
